@@ -4,7 +4,7 @@
    `got.astype(expected.dtype)` narrowing cast), [compare_fixed] the model of the repaired code
    (.scratch/c18/fix.diff).  harness/c18.py ties whichever of the two the running code implements. *)
 From Coq Require Import ZArith QArith Reals Qreals List Bool.
-From J2O Require Import PyLib Dtype Allclose.
+From J2O Require Import PyLib Dtype Allclose OrtFeed.
 Import ListNotations.
 
 (* THE PROPERTY, at full strength, for the repaired comparison: a "match" verdict implies equal output
@@ -102,3 +102,61 @@ Theorem C18_x64_body_sees_requested :
     exists a, body enabled = (a, snd (temporary_x64 enabled prev body)).
 Proof. exact x64_body_sees_requested. Qed.
 Print Assumptions C18_x64_body_sees_requested.
+
+(* ---- feed construction (user_interface._build_ort_inputs; model theories/OrtFeed.v [route]):
+   which caller value reaches which input of the stored model.  A "match" verdict is only meaningful if
+   the model was run on the SAME arguments as fn. *)
+
+(* one feed entry per model input, in model order *)
+Theorem C18_feed_one_entry_per_model_input :
+  forall (V : Type) names (xs : list V) ps f,
+    route V names xs ps = inl f -> map fst f = names.
+Proof. exact route_names. Qed.
+Print Assumptions C18_feed_one_entry_per_model_input.
+
+(* every positional argument is fed exactly once, in order, to the inputs no keyword parameter binds *)
+Theorem C18_feed_positional_in_order :
+  forall (V : Type) names (xs : list V) ps f,
+    route V names xs ps = inl f ->
+    map snd (filter (fun e => negb (is_param V ps (fst e))) f) = xs.
+Proof. exact route_positional. Qed.
+Print Assumptions C18_feed_positional_in_order.
+
+(* an input bound by a keyword parameter receives that parameter, never a positional value *)
+Theorem C18_feed_param_value :
+  forall (V : Type) names (xs : list V) ps f,
+    route V names xs ps = inl f ->
+    forall n v, In (n, v) f -> NoDup names -> forall p, lookup V n ps = Some p -> v = p.
+Proof. exact route_param_value. Qed.
+Print Assumptions C18_feed_param_value.
+
+(* the call goes through exactly when the positional arguments fill the unbound inputs; otherwise it
+   raises (never runs the model on a shifted or truncated argument list) *)
+Theorem C18_feed_succeeds_iff_counts_agree :
+  forall (V : Type) names (xs : list V) ps,
+    (exists f, route V names xs ps = inl f) <->
+    List.length xs = List.length (positional_slots V names ps).
+Proof. exact route_succeeds_iff. Qed.
+Print Assumptions C18_feed_succeeds_iff_counts_agree.
+
+Theorem C18_feed_too_few_raises :
+  forall (V : Type) names (xs : list V) ps,
+    (List.length xs < List.length (positional_slots V names ps))%nat ->
+    route V names xs ps =
+    inr (NotEnough (nth (List.length xs) (positional_slots V names ps) String.EmptyString)).
+Proof. exact route_too_few. Qed.
+Print Assumptions C18_feed_too_few_raises.
+
+Theorem C18_feed_too_many_raises :
+  forall (V : Type) names (xs : list V) ps,
+    (List.length (positional_slots V names ps) < List.length xs)%nat ->
+    route V names xs ps = inr TooMany.
+Proof. exact route_too_many. Qed.
+Print Assumptions C18_feed_too_many_raises.
+
+(* the common call (no keyword parameters): argument i is fed to model input i *)
+Theorem C18_feed_no_params_is_zip :
+  forall (V : Type) names (xs : list V),
+    List.length xs = List.length names -> route V names xs [] = inl (combine names xs).
+Proof. exact route_no_params. Qed.
+Print Assumptions C18_feed_no_params_is_zip.
